@@ -15,6 +15,10 @@ CLAIMED = {
     text="Same machinery as C01 over roots constructed from explicit index extensions with bases in {-1,0,2} per dimension plus reindexed/blocked: TLC checks that the documented mappings and the code-shaped layout arithmetic agree for re-based roots, and every transition is replayed on the real library (element access, slicing by index, iteration, elements()).",
     note="bounded as C01 (D<=3); index bases of derived views are demanded only where the operation names them (construction, reindexed, blocked).",
     ref="DESIGN.md section 5 C19"),
+ "C02": dict(
+    text="TLC enumerates specs/Iterators.tla: for every root (D<=3, extents 0..3) and every view one operation away, all iterator programs over two registers (begin/end/++/--/post-inc/dec/+=/-=/+/-/assign/copy) within the bounds, for begin()/end() iterators and for elements() iterators; each program is replayed on the real library and position (it-begin, end-it), differences, all six comparisons, dereferenced cells, it[n] for every in-range n, copies and const iterators must equal what the position semantics of the specification prescribes.",
+    note="bounded: ranges of <= 6 positions, offsets in {-2..2}, programs of <= 2 operations after merging by position pair (edge coverage) plus all unmerged programs of length <= 2 on 2-D roots; cursors are covered as an access path of C01.",
+    ref="DESIGN.md section 5 C02"),
 }
 
 props = [json.loads(l) for l in open(os.path.join(V, "properties.jsonl"))]
